@@ -106,7 +106,7 @@ def main():
             "kind_free_text": "deterministic simulator: real mrecordlog over a simulated file system (SimFs), simulated clock and seeded hasher; seeded history generator, reference model, effect-trace crash/power-loss image builder, damage and I/O-error injectors, minimiser, replay",
         }],
         "checks": checks,
-        "notes": "Hooks are not add-only: H2 rewrites two `use` lines and three call sites in src/rolling/directory.rs to cfg-switched aliases, H3 changes two cfg attributes in src/rolling/mod.rs, H4 one `use` in src/persist_policy.rs, H5 the HashMap type in src/mem/queues.rs; H1 adds src/verif.rs, a cfg-gated `pub mod verif` and a [lints.rust] check-cfg entry in Cargo.toml. With the guard off the token stream is unchanged. Exit codes of every check: 0 held / known findings only, 1 VIOLATION (replay reproduced in a fresh process), 2 harness or build error. VERIF_SEED seeds everything (default 20260925).",
+        "notes": "Hooks are not add-only: H2 rewrites two `use` lines and three call sites in src/rolling/directory.rs to cfg-switched aliases, H3 changes two cfg attributes in src/rolling/mod.rs, H4 one `use` in src/persist_policy.rs, H5 the HashMap type in src/mem/queues.rs; H1 adds src/verif.rs, a cfg-gated `pub mod verif` and a [lints.rust] check-cfg entry in Cargo.toml; H1b extends src/verif.rs only (more of the std::fs surface: OpenOptions create/truncate/append, File::sync_all/metadata, rename). With the guard off the token stream is unchanged. Seven genuine defects found by these checks were repaired by unguarded `fix:` commits in /repo (listed as `fixed:` in known_findings.json, failing replays in /verif/findings/). Exit codes of every check: 0 held / known findings only, 1 VIOLATION (replay reproduced in a fresh process), 2 harness or build error. VERIF_SEED seeds everything (default 20260925).",
         "not_applicable": na,
     }
     with open(os.path.join(ROOT, "MANIFEST.json"), "w") as f:
